@@ -74,6 +74,20 @@ pub fn run_find_bin_os(cwd: &Path, args: &[std::ffi::OsString], stdin: Option<&[
     let mut c = Command::new(bin_dir().join("find"));
     c.args(args).current_dir(cwd);
     for (k, v) in env {
+        if k == "VH_SETUID" {
+            // not an environment variable: run the child as this (unprivileged) user
+            use std::os::unix::process::CommandExt;
+            let id: u32 = v.parse().unwrap_or(65534);
+            unsafe {
+                c.pre_exec(move || {
+                    libc::setgroups(0, std::ptr::null());
+                    libc::setgid(id);
+                    libc::setuid(id);
+                    Ok(())
+                });
+            }
+            continue;
+        }
         if k == "VH_RLIMIT_STACK" {
             // not an environment variable: the stack limit (bytes) the child is started with
             use std::os::unix::process::CommandExt;
